@@ -103,6 +103,10 @@ func Load(repoDir, verifDir string) (*Loaded, error) {
 	if err != nil {
 		return nil, err
 	}
+	if cyc := lemmaCycle(cf); cyc != "" {
+		// a lemma that (transitively) uses itself would be assumed in its own proof
+		return nil, fmt.Errorf("verif_contracts.go: circular use of lemmas: %s", cyc)
+	}
 	L := &Loaded{Fset: root.Fset, CF: cf, SpecFiles: specFiles, RepoDir: repoDir, Opaque: map[string]bool{}}
 	for _, f := range root.Syntax {
 		if !specFiles[root.Fset.Position(f.Pos()).Filename] {
@@ -1024,4 +1028,51 @@ func generateClauses(L *Loaded, root *packages.Package, cf *ContractFile, droppe
 	hdr.WriteString("\n")
 	// keep imports used even if a type only appears in a signature
 	return hdr.String() + g.b.String(), nil
+}
+
+// lemmaCycle: a cycle in the `uses` relation among lemmas, or "".
+func lemmaCycle(cf *ContractFile) string {
+	uses := func(n string) []string {
+		ct := cf.Contracts[n]
+		if ct == nil {
+			return nil
+		}
+		var out []string
+		for _, u := range ct.Uses {
+			if k := strings.Index(u, "/"); k > 0 {
+				u = u[k+1:]
+			}
+			out = append(out, "lemma:"+u)
+		}
+		return out
+	}
+	state := map[string]int{}
+	var path []string
+	var visit func(n string) string
+	visit = func(n string) string {
+		switch state[n] {
+		case 1:
+			return strings.Join(append(path, n), " -> ")
+		case 2:
+			return ""
+		}
+		state[n] = 1
+		path = append(path, n)
+		for _, u := range uses(n) {
+			if c := visit(u); c != "" {
+				return c
+			}
+		}
+		path = path[:len(path)-1]
+		state[n] = 2
+		return ""
+	}
+	for _, n := range cf.Order {
+		if strings.HasPrefix(n, "lemma:") {
+			if c := visit(n); c != "" {
+				return c
+			}
+		}
+	}
+	return ""
 }
